@@ -231,6 +231,29 @@ class Check(PropertyCheck):
             out.append((k, v))
         return out
 
+    CODINGS = ["identity", "gzip", "deflate", "br", "zstd"]
+
+    def gen_coded(self, rng, body):
+        """(raw body as sent, extra fields): a body together with a content-encoding / content-type under which a
+        'decoded' twin of it exists (get_content() vs raw_content, text vs content) — or pretends to"""
+        from mitmproxy.net import encoding
+        r = rng.random()
+        if r < 0.45:      # really encoded
+            c = rng.pick(self.CODINGS)
+            plain = body or rng.pick([b"hi", b"A" * 4000, b"GET /x HTTP/1.1\r\n\r\n", bytes(rng.pick(b"abc") for _ in range(rng.randint(1, 300)))])
+            return encoding.encode(plain, c), [(b"content-encoding", c.encode())]
+        if r < 0.60:      # valid coding, data that does not decode under it
+            return body or b"not compressed", [(b"content-encoding", rng.pick([b"gzip", b"deflate", b"br", b"zstd"]))]
+        if r < 0.70:      # unknown / odd spellings / several codings
+            return body or b"xyz", [(b"content-encoding", rng.pick([b"x-foo", b"GZIP", b"gzip, br", b"", b"none"]))]
+        if r < 0.80:      # truncated stream of a valid coding
+            full = encoding.encode(b"B" * 500, rng.pick(["gzip", "deflate", "br", "zstd"]))
+            return full[:max(1, len(full) // 2)], [(b"content-encoding", b"gzip")]
+        # charset twin: text vs content
+        cs = rng.pick([b"utf-16", b"utf-8", b"latin-1", b"shift_jis", b"x-unknown"])
+        txt = rng.pick([b"\xff\xfeh\x00i\x00", b"h\xc3\xa9llo", b"\xe9t\xe9", b"\x82\xa0", b"\xff\xff\xff"])
+        return txt, [(b"content-type", b"text/plain; charset=" + cs)]
+
     def gen_body(self, rng):
         r = rng.random()
         if r < 0.35: return b""
@@ -242,9 +265,14 @@ class Check(PropertyCheck):
         body = self.gen_body(rng)
         method = rng.weighted([(5, b"GET"), (5, b"POST"), (1, b"HEAD"), (1, b"PUT"), (1, b"OPTIONS"), (1, b"DELETE")])
         if method in (b"GET", b"HEAD") and rng.chance(0.7): body = b""
-        path = rng.pick([b"/", b"/a", b"/a/b?c=d", b"/%20x", b"*", b"/" + b"p" * rng.randint(1, 30)])
+        path = rng.pick([b"/", b"/a", b"/a/b?c=d", b"/%20x", b"*", b"/" + b"p" * rng.randint(1, 30), b"/a%2Fb/%41?q=a+b%26c",
+                         b"/caf\xc3\xa9?x=\xff", b"//double//slash/../x", b"/;p=1?#"])
+        coded = []
+        if rng.chance(0.22) and method not in (b"GET", b"HEAD"):
+            body, coded = self.gen_coded(rng, body)
         auth = rng.pick([b"example.com", b"example.com:80", b"example.com:8080", b"other.example", b"[::1]:80", b"EXAMPLE.com", b"xn--bcher-kva.example"])
         fields = self.gen_fields(rng, cv)
+        for f in coded: fields.insert(rng.randint(0, len(fields)), f if cv == 2 else (f[0].title(), f[1]))
         if cv == 2:
             hostmode = rng.weighted([(6, "auth"), (2, "both"), (2, "host")])
             block = [(b":method", method), (b":scheme", rng.pick([b"http", b"http", b"https"])), (b":path", path)]
@@ -274,6 +302,9 @@ class Check(PropertyCheck):
         if status in (204, 304) and rng.chance(0.7): body = b""
         fields = self.gen_fields(rng, sv)
         fields = [(k, v) for k, v in fields if k.lower() not in (b"te",)]
+        if rng.chance(0.22) and status not in (204, 304) and method != b"HEAD":
+            body, coded = self.gen_coded(rng, body)
+            for f in coded: fields.insert(rng.randint(0, len(fields)), f if sv == 2 else (f[0].title(), f[1]))
         if sv == 2:
             block = [(b":status", b"%d" % status)]
             if body and rng.chance(0.55): fields.insert(rng.randint(0, len(fields)), (b"content-length", b"%d" % len(body)))
